@@ -23,11 +23,14 @@ def stepDetect (line : String) : String :=
     | none => "bad-op"
   | _ => "bad-op"
 
-/-- `reader`: `<hex> <hex> ...` (one word per successful Read) → messages joined by ` | ` -/
+/-- `reader`: `E|I <hex> <hex> ...` (E: end of input follows, I: the input stays open; one word per
+successful Read) → messages joined by ` | ` -/
 def stepReader (line : String) : String :=
-  match (words line).mapM parseHex with
+  let ws := words line
+  let eof := ws.head? == some "E"
+  match (ws.drop 1).mapM parseHex with
   | some chunks =>
-    match readAll Tea.Gen.extSequences Tea.Gen.seqLengths true chunks [] [] with
+    match readAll Tea.Gen.extSequences Tea.Gen.seqLengths eof chunks [] [] with
     | .ok (out, _) => " | ".intercalate (out.map fun o =>
         match o.msg with
         | some (.unknownCSI bs) => s!"unknowncsi len={bs.length}"   -- content aliases the read buffer in Go
